@@ -14,7 +14,8 @@ RULE = ("each case takes a structure (repository proteins with their ligands and
         "run to 1e-7 (then the difference is the effect of coordinate rounding). Non-trivial: the "
         "rotation is not the identity or the translation is not a multiple of the cell, and the "
         "structure has >= 3 titratable groups with >= 1 hydrogen-bond determinant; distinct = distinct "
-        "(structure digest, pose).")
+        "(structure digest, pose)."
+        " Sweeps also require the disulfide itself (both cysteines bridged) at every offset.")
 ASSUMPTIONS = ["hetero groups are excluded from tiers 2 and 3, as the statement says",
                "a group whose centre has a heavy atom within 1e-6 A^2 of a cut-off sphere is tie-sensitive and not judged"]
 TIMEOUT = {"quick": 2400, "thorough": 14400}
